@@ -72,6 +72,10 @@ class SimThread:
         self.prio = 0.0
         self.in_handler = False
         self.tls = {}
+        self.prev_code = None
+        self.ndp = 0
+        self.no_async = False
+        self.prev_line = 0
 
     def runnable(self):
         if self.state != RUNNABLE or self.held:
@@ -195,6 +199,13 @@ class Sim:
         self.last_progress = 0
         self.held_budget = 0
         self.ntok = 0
+        self.preempts = 0
+        self.fired = False
+        self.dp_triggers = []
+        self.dp_active = False
+        self.dp_hook = None
+        self.block_hooks = []
+        self.n_instrumented = 0
         self.npipe = 0
         self.nconn = 0
 
@@ -459,6 +470,13 @@ class Sim:
                 n = R[self.rng.randrange(len(R))]
         elif k == 'cooperative':
             n = cur if (cur in R) else R[0]
+        elif k == 'directed':
+            if not self.fired:
+                n = cur if (cur in R) else R[0]
+            elif cur in R and self.rng.random() < pol.p_stay:
+                n = cur
+            else:
+                n = R[self.rng.randrange(len(R))]
         elif k == 'pct':
             if pol.change_points is None:
                 pol.change_points = sorted(self.rng.randrange(1, pol.est_len) for _ in range(pol.depth))
@@ -496,7 +514,7 @@ class Sim:
         if t.state == FROZEN or not t.proc.alive:
             self._park_forever(t)
 
-    def yield_(self, reason=None):
+    def yield_(self, reason=None, deliver=True):
         """Pre-emption point at a simulated system call."""
         t = self.me()
         if t is None:
@@ -507,7 +525,7 @@ class Sim:
             self._finish('step-cap', {'steps': self.steps})
         self._maybe_stall(t)
         self.switch(t)
-        self._after_resume(t, in_callback=False)
+        self._after_resume(t, deliver)
 
     def _maybe_stall(self, t):
         if self.stall_rate and self.clock_mode == 'adversarial' and t is not self.root:
@@ -517,7 +535,7 @@ class Sim:
                 self.fault('stall')
                 self.ev('stall', t.name, d)
 
-    def block(self, t, qs, timeout=None, what=None):
+    def block(self, t, qs, timeout=None, what=None, deliver=True):
         """Block thread t on wait queues qs until woken or timeout (simulated seconds).
         Returns True if woken, False on timeout."""
         self.nsys += 1
@@ -527,6 +545,11 @@ class Sim:
         t.block_gen += 1
         t.blocked_on = what
         gen = t.block_gen
+        if self.block_hooks:
+            for h in list(self.block_hooks):
+                h(self, t, what)
+            if t.state != BLOCKED:      # the hook killed / froze us
+                self.switch(t)
         for q in qs:
             q.add(t)
         if timeout is not None:
@@ -540,7 +563,7 @@ class Sim:
             q.discard(t)
         t.blocked_on = None
         w = t.woken
-        self._after_resume(t, in_callback=False)
+        self._after_resume(t, deliver)
         return w
 
     def wake(self, t):
@@ -563,11 +586,13 @@ class Sim:
             return
         self.block(t, (), timeout=d, what=f'sleep({d})')
 
-    def _after_resume(self, t, in_callback):
+    def _after_resume(self, t, deliver):
         # python-level signal handlers run in the main thread of a process
         p = t.proc
         if p.pending_signals and t is p.main and not t.in_handler:
             self._run_handlers(t)
+        if deliver and (t.pending_exc is not None or self.dp_active):
+            self.sys_return(t)
 
     def _run_handlers(self, t):
         p = t.proc
@@ -590,11 +615,13 @@ class Sim:
         self.steps += 1
         self.now += self.step_cost
         t.nline += 1
+        pc, pl = t.prev_code, t.prev_line
+        t.prev_code, t.prev_line = code, line
         self.lhash = (self.lhash * 1000003 + code.co_firstlineno * 4099 + line + len(t.name)) & 0xFFFFFFFFFFFF
         if self.line_hook is not None:
             self.line_hook(t, code, line)
         if self.triggers:
-            self._check_triggers(t, code, line)
+            self._check_triggers(self.triggers, t, code, line, 'line', t.nline)
         # pre-emption decision
         if self.timers and self.timers[0][0] <= self.now:
             self._fire_due()
@@ -608,30 +635,87 @@ class Sim:
                         x.held = False
                         self.ev('unhold-budget', x.name)
         if not t.runnable() or self._want_preempt(t):
+            sw = self.switches
             self.switch(t)
+            if self.switches != sw:
+                self.preempts += 1
         p = t.proc
         if p.pending_signals and t is p.main and not t.in_handler:
             self._run_handlers(t)
+        if pc is code and line <= pl:
+            # reached by a backward jump: CPython checks the eval breaker on JUMP_BACKWARD
+            self._delivery_point(t, 'jump', code, line)
+
+    # ------------------------------------------------------------------ asynchronous-exception delivery points
+    # CPython 3.12 raises a pending asynchronous exception only where it checks the eval breaker: on function
+    # entry (RESUME), on backward jumps and right after a call to a C function returns - in particular after a
+    # blocking call returns.  These are modelled by: PY_START events, LINE events reached by a backward jump,
+    # CALL events whose callee is a Python function (equivalent to the callee's RESUME check), C_RETURN / C_RAISE
+    # events, and the return of every simulated system call.
+    def on_py_start(self, code, offset):
+        t = self.by_real.get(_thread.get_ident())
+        if t is None or self.finished:
+            return
+        if t.pending_exc is not None or self.dp_active:
+            self._delivery_point(t, 'start', code, code.co_firstlineno)
+
+    def on_call(self, code, offset, callee, arg0):
+        t = self.by_real.get(_thread.get_ident())
+        if t is None or self.finished:
+            return
+        if t.pending_exc is not None or self.dp_active:
+            tp = type(callee)
+            if tp is types.FunctionType or (tp is types.MethodType and type(callee.__func__) is types.FunctionType):
+                self._delivery_point(t, 'call', code, _line_of(code, offset))
+
+    def on_c_return(self, code, offset, callee, arg0):
+        t = self.by_real.get(_thread.get_ident())
+        if t is None or self.finished:
+            return
+        if t.pending_exc is not None or self.dp_active:
+            self._delivery_point(t, 'cret', code, _line_of(code, offset))
+
+    def sys_return(self, t):
+        """delivery point at the return of a simulated system call (called from shims, outside callbacks)"""
+        if t.pending_exc is not None or self.dp_active:
+            code, line = _innermost_instrumented(sys._getframe(1))
+            self._delivery_point(t, 'sys', code, line)
+
+    def sys_return_point(self, t):
+        if t.pending_exc is not None or self.dp_active:
+            self.sys_return(t)
+
+    def _delivery_point(self, t, kind, code, line):
+        if t.no_async or t.in_handler:
+            return
+        t.ndp += 1
+        if self.dp_hook is not None:
+            self.dp_hook(t, kind, code, line)
+        if self.dp_triggers:
+            self._check_triggers(self.dp_triggers, t, code, line, kind, t.ndp)
+            if not t.runnable():
+                self.switch(t)
         if t.pending_exc is not None:
             exc = t.pending_exc
             t.pending_exc = None
-            fr = sys._getframe(2)
+            qn = code.co_qualname if code is not None else None
             stack = []
-            f = fr
+            f = sys._getframe(2)
             while f is not None and len(stack) < 40:
-                stack.append((f.f_code.co_qualname, f.f_lineno))
+                co = f.f_code
+                if co in _INSTRUMENTED_SET:
+                    stack.append((co.co_qualname, f.f_lineno))
                 f = f.f_back
             self.landings.append({'thread': t.name, 'role': t.role, 'exc': getattr(exc, '__name__', type(exc).__name__),
-                                  'at': (code.co_qualname, line), 'nline': t.nline, 'stack': stack,
-                                  'evalbreak': _evalbreak_reachable(fr)})
-            self.ev('async-raise', t.name, code.co_qualname, line)
+                                  'at': (qn, line), 'dp': kind, 'ndp': t.ndp, 'stack': stack, 'evalbreak': True})
+            self.ev('async-raise', t.name, qn, line, kind)
             raise exc
 
     def _want_preempt(self, t):
         if self.script is not None:
             return True        # every line is a decision point in replay (only if >1 runnable)
         k = self.policy.kind
-        if k == 'cooperative':
+        if k == 'cooperative' or (k == 'directed' and not self.fired):
             return False
         if k == 'random':
             # the decision whether to stay is taken in _choose; but avoid the cost when alone
@@ -640,29 +724,37 @@ class Sim:
 
     # ------------------------------------------------------------------ directed triggers
     def add_trigger(self, thread=None, nline=None, qualname=None, line=None, occurrence=1, action=None,
-                    role=None, label=None):
-        self.triggers.append({'thread': thread, 'nline': nline, 'qualname': qualname, 'line': line,
-                              'occ': occurrence, 'seen': 0, 'action': action, 'role': role, 'label': label})
+                    role=None, label=None, at='line', ndp=None, dpkind=None):
+        tr = {'thread': thread, 'index': nline if at == 'line' else ndp, 'qualname': qualname, 'line': line,
+              'occ': occurrence, 'seen': 0, 'action': action, 'role': role, 'label': label, 'dpkind': dpkind}
+        if at == 'line':
+            self.triggers.append(tr)
+        else:
+            self.dp_triggers.append(tr)
+            self.dp_active = True
 
-    def _check_triggers(self, t, code, line):
-        for tr in list(self.triggers):
+    def _check_triggers(self, lst, t, code, line, kind=None, index=None):
+        for tr in list(lst):
             if tr['thread'] is not None and tr['thread'] != t.name:
                 continue
             if tr['role'] is not None and tr['role'] != t.role:
                 continue
-            if tr['nline'] is not None:
-                if t.nline != tr['nline']:
+            if tr['index'] is not None:
+                if index != tr['index']:
                     continue
             else:
-                if tr['qualname'] is not None and code.co_qualname != tr['qualname']:
+                if tr['qualname'] is not None and (code is None or code.co_qualname != tr['qualname']):
                     continue
                 if tr['line'] is not None and line != tr['line']:
+                    continue
+                if tr['dpkind'] is not None and kind != tr['dpkind']:
                     continue
                 tr['seen'] += 1
                 if tr['seen'] != tr['occ']:
                     continue
-            self.triggers.remove(tr)
-            self.ev('trigger', t.name, code.co_qualname, line, tr['label'])
+            lst.remove(tr)
+            self.fired = True
+            self.ev('trigger', t.name, code.co_qualname if code is not None else None, line, tr['label'], kind)
             tr['action'](self, t, code, line)
 
     def hold(self, t, budget=3000):
@@ -768,26 +860,25 @@ def _fmt_stack(f, short=False):
 _CALL_CACHE = {}
 
 
-def _evalbreak_reachable(frame):
-    """Could CPython 3.12 really deliver an async exception just before this line?  True when the line is
-    the first of a newly entered frame, or the previously executed instruction in this frame was a call
-    or a backward jump (approximation: the line before contains a CALL* opcode)."""
+def _evalbreak_reachable(code, line, prev_code, prev_line):
+    """Could CPython 3.12 really deliver an asynchronous exception just before this line?  It checks the eval
+    breaker on function entry (RESUME), on backward jumps and after calls.  So: yes when the previous line event
+    of this thread was in another code object (we just entered this frame, or a callee just ran), when we
+    arrived by a backward jump, or when the previously executed line of this frame contains a call."""
     import dis
-    co = frame.f_code
-    key = co
-    info = _CALL_CACHE.get(key)
+    if prev_code is not code:
+        return True
+    if line <= prev_line:
+        return True
+    info = _CALL_CACHE.get(code)
     if info is None:
-        lines_with_call = set()
-        backjump_targets = set()
-        for ins in dis.get_instructions(co):
+        info = set()
+        for ins in dis.get_instructions(code):
             ln = ins.positions.lineno if ins.positions else None
-            if ins.opname.startswith('CALL') or ins.opname in ('RESUME', 'SEND', 'YIELD_VALUE'):
-                lines_with_call.add(ln)
-            if ins.opname in ('JUMP_BACKWARD', 'JUMP_BACKWARD_NO_INTERRUPT', 'FOR_ITER'):
-                backjump_targets.add(ln)
-        info = (lines_with_call, backjump_targets)
-        _CALL_CACHE[key] = info
-    return True if (frame.f_lineno == co.co_firstlineno + 0) else None
+            if ins.opname.startswith('CALL') or ins.opname in ('SEND', 'YIELD_VALUE', 'FOR_ITER'):
+                info.add(ln)
+        _CALL_CACHE[code] = info
+    return prev_line in info
 
 
 # ---------------------------------------------------------------------- monitoring
@@ -827,14 +918,62 @@ def _line_cb(code, line):
         sim.on_line(code, line)
 
 
+def _start_cb(code, offset):
+    sim = _ACTIVE['sim']
+    if sim is not None:
+        sim.on_py_start(code, offset)
+
+
+def _call_cb(code, offset, callee, arg0):
+    sim = _ACTIVE['sim']
+    if sim is not None:
+        sim.on_call(code, offset, callee, arg0)
+
+
+def _cret_cb(code, offset, callee, arg0):
+    sim = _ACTIVE['sim']
+    if sim is not None:
+        sim.on_c_return(code, offset, callee, arg0)
+
+
+_INSTRUMENTED_SET = set()
+_LINE_TABLES = {}
+
+
+def _line_of(code, offset):
+    tab = _LINE_TABLES.get(code)
+    if tab is None:
+        tab = {}
+        for start, end, ln in code.co_lines():
+            if ln is not None:
+                for o in range(start, end, 2):
+                    tab[o] = ln
+        _LINE_TABLES[code] = tab
+    return tab.get(offset, code.co_firstlineno)
+
+
+def _innermost_instrumented(f):
+    while f is not None:
+        if f.f_code in _INSTRUMENTED_SET:
+            return f.f_code, f.f_lineno
+        f = f.f_back
+    return None, None
+
+
 def instrument(code_objects):
     mon = sys.monitoring
     if mon.get_tool(TOOL_ID) is None:
         mon.use_tool_id(TOOL_ID, 'simos')
-    mon.register_callback(TOOL_ID, mon.events.LINE, _line_cb)
+    ev = mon.events
+    mon.register_callback(TOOL_ID, ev.LINE, _line_cb)
+    mon.register_callback(TOOL_ID, ev.PY_START, _start_cb)
+    mon.register_callback(TOOL_ID, ev.CALL, _call_cb)
+    mon.register_callback(TOOL_ID, ev.C_RETURN, _cret_cb)
+    mon.register_callback(TOOL_ID, ev.C_RAISE, _cret_cb)
     for co in code_objects:
-        mon.set_local_events(TOOL_ID, co, mon.events.LINE)
+        mon.set_local_events(TOOL_ID, co, ev.LINE | ev.PY_START | ev.CALL)
         _INSTRUMENTED.append(co)
+        _INSTRUMENTED_SET.add(co)
 
 
 def install_monitoring(sim):
